@@ -319,10 +319,16 @@ def vPart2Ops (c : Config) (f : Flags) : List Prim × Flags :=
   ([.interaction (.frac 1 1), .jump (.frac 1 2)] ++ ps ++ [.advT (.frac 1 2)] ++ blk,
    if c.keep then { f3 with isSync := false } else f3)
 
-def vStepOps (c : Config) (f : Flags) : List Prim × Flags :=
+/-- part1, acceleration update, part2 — `reb_simulation_step` up to (not including) the post-timestep
+    callback and `reb_simulation_rescale_var` (rebound.c:140-149: the callback comes first) -/
+def vStepCore (c : Config) (f : Flags) : List Prim × Flags :=
   let (p1, f1) := vPart1Ops c f
   let (p2, f2) := vPart2Ops c f1
-  (p1 ++ [.updateAcc] ++ p2 ++ [.rescaleVar], f2)
+  (p1 ++ [.updateAcc] ++ p2, f2)
+
+/-- a step without post-timestep callback -/
+def vStepOps (c : Config) (f : Flags) : List Prim × Flags :=
+  ((vStepCore c f).1 ++ [.rescaleVar], (vStepCore c f).2)
 
 /-! ## SABA (integrator_saba.c) -/
 
@@ -563,6 +569,58 @@ def vOpOps {X} (c : Config) (f : Flags) : Op X → List Prim × Flags
   | .read => ([], f)
   | .setRecalc => ([], { f with recalc := true })
   | .poke _ => ([], f)
+
+/-- magnitude abstraction for `reb_simulation_rescale_var`: does some coordinate of a set of
+    variational particles exceed 1e100 — in `r->particles` (`bigP`) and in the copy `p_jh` keeps
+    (`bigJ`)?  `from_inertial` copies P to J, every regeneration of the particles from `p_jh`
+    (end of part1, synchronize) copies J to P, a successful rescaling clears P *only*. -/
+structure VMag where
+  bigP : Bool
+  bigJ : Bool
+  deriving DecidableEq, Repr, Inhabited
+
+/-- magnitude effect of part1 + part2: `from_inertial` runs iff safe_mode or the recalculate flag -/
+def vMagStep (c : Config) (f : Flags) (m : VMag) : VMag :=
+  let j := if c.safe || (initF f).recalc then m.bigP else m.bigJ
+  ⟨j, j⟩
+
+def vMagSync (f : Flags) (m : VMag) : VMag :=
+  if (initF f).isSync then m else ⟨m.bigJ, m.bigJ⟩
+
+/-- `reb_simulation_rescale_var` at the end of a step (tools.c; the particle part is the primitive
+    `rescaleVar`).  It rescales only if the integrator is synchronised ("Rescaling failed because
+    integrator was not synchronized" otherwise — always the case with keep_unsynchronized); after a
+    successful rescaling it sets `recalculate_coordinates_this_timestep` so that the next step
+    rebuilds `p_jh` from the rescaled particles — as found only `if safe_mode == 0` (`rfix = false`),
+    which leaves a stale, un-rescaled `p_jh` behind when safe_mode is switched off before the next
+    step (finding C09:rescale-var-stale-pjh-after-safe-mode-off); repaired (`rfix`) always.
+    Returns the new flags, the new magnitudes and whether a rescaling was performed. -/
+def vRescaleF (rfix : Bool) (c : Config) (f : Flags) (m : VMag) : Flags × VMag × Bool :=
+  if m.bigP && f.isSync then ({ f with recalc := f.recalc || !c.safe || rfix }, { m with bigP := false }, true)
+  else (f, m, false)
+
+/-- `vOpOps` with the magnitudes threaded through; last component: a rescaling was performed -/
+def vOpOpsR {X} (rfix : Bool) (c : Config) (f : Flags) (m : VMag) : Op X → List Prim × (Flags × VMag × Bool)
+  | .step => ((vStepOps c f).1, vRescaleF rfix c (vStepOps c f).2 (vMagStep c f m))
+  | .synchronize => ((vSyncOps c f).1, ((vSyncOps c f).2, vMagSync f m, false))
+  | o => ((vOpOps c f o).1, ((vOpOps c f o).2, m, false))
+
+/-- the same split as the source does it: the step without its rescaling … -/
+def vCoreOpsR {X} (c : Config) (f : Flags) (m : VMag) : Op X → List Prim × (Flags × VMag)
+  | .step => ((vStepCore c f).1, ((vStepCore c f).2, vMagStep c f m))
+  | .synchronize => ((vSyncOps c f).1, ((vSyncOps c f).2, vMagSync f m))
+  | o => ((vOpOps c f o).1, ((vOpOps c f o).2, m))
+
+/-- … and `reb_simulation_rescale_var`, which `reb_simulation_step` calls *after* the post-timestep
+    callback (so with the flags that callback's synchronize / recalculate settings left) -/
+def vStepTailR (rfix : Bool) (c : Config) (f : Flags) (m : VMag) : List Prim × (Flags × VMag × Bool) :=
+  ([.rescaleVar], vRescaleF rfix c f m)
+
+theorem vOpOpsR_step_eq (rfix : Bool) (c : Config) (f : Flags) (m : VMag) :
+    vOpOpsR rfix c f m (.step : Op Unit) =
+      ((vCoreOpsR c f m (.step : Op Unit)).1 ++
+        (vStepTailR rfix c (vCoreOpsR c f m (.step : Op Unit)).2.1 (vCoreOpsR c f m (.step : Op Unit)).2.2).1,
+       (vStepTailR rfix c (vCoreOpsR c f m (.step : Op Unit)).2.1 (vCoreOpsR c f m (.step : Op Unit)).2.2).2) := rfl
 
 def sabaOpOps {X} (c : SabaConfig) (f : Flags) : Op X → List Prim × Flags
   | .step => sabaStepOps c f
